@@ -45,7 +45,9 @@ CharsIn(ps) == UNION {{ps[i][k] : k \in 1..Len(ps[i])} : i \in 1..Len(ps)}
 \* Collections beyond this size (the "bigindex" family: values = positions beyond u8/u16 range) are
 \* validated only by the conjuncts that do not need the operational model of the automaton.
 BIG == 3000
-SpecBuild(ev) == IF Len(ev.pats) > BIG THEN [nfa |-> EmptyNfa, res |-> "ok"]
+TotalLen(ps, k) == IterRange(LAMBDA t, i : t + Len(ps[i]), 0, k, Len(ps))
+IsBig(ps) == Len(ps) > BIG \/ (Len(ps) <= 50 /\ TotalLen(ps, 1) > 4 * BIG)
+SpecBuild(ev) == IF IsBig(ev.pats) THEN [nfa |-> EmptyNfa, res |-> "ok"]
                  ELSE BuildNfa(ev.pats, LensOf(ev.var, ev.pats), ev.kind)
 
 BuildFails(ev, r) ==
@@ -61,7 +63,7 @@ BuildFails(ev, r) ==
   \* every other property presupposes that valid input builds
   \cup Chk("build.valid_input_builds", ALLP \ {"C10"},
            ValidCollection(ev.pats, ev.entry, ev.maxidx) => ev.outcome = "ok")
-  \cup (IF ev.outcome # "ok" \/ r.res # "ok" \/ Len(ev.pats) > BIG THEN {} ELSE
+  \cup (IF ev.outcome # "ok" \/ r.res # "ok" \/ IsBig(ev.pats) THEN {} ELSE
           Chk("build.num_states", {"C15", "C11"},
               ev.num_states = ns /\ ns = Cardinality(Nodes(r.nfa)))
      \cup Chk("build.num_elements", {"C15"},
@@ -117,7 +119,7 @@ SearchFails(s, a, ev) ==
   IN
   IF ~MethodOK(a, ev.method) THEN {"search.method_kind_mismatch"} ELSE
      Chk("search.terminates", rp \cup {"C13", "C07"}, ~ev.capped)
-  \cup Chk("search.equals_model", rp, Len(a.pats) <= BIG => got = WithVals(a, run.ms))
+  \cup Chk("search.equals_model", rp, ~IsBig(a.pats) => got = WithVals(a, run.ms))
   \cup Chk("search.equals_meaning", rp,
            OracleAffordable(a, hay) =>
               got = WithVals(a, Expected(ev.method, a.kind, a.bpats, hay)))
@@ -143,21 +145,21 @@ SearchFails(s, a, ev) ==
 \* ---------------------------------------------------------------------------
 \* table: the complete transition table of a real automaton
 \* ---------------------------------------------------------------------------
-RECURSIVE MapSlots(_, _, _, _)
-MapSlots(nfa, slots, i, acc) ==
-  IF i > Len(slots) THEN acc
-  ELSE LET p  == slots[i].par
-           nd == IF i = 1 THEN ROOT
-                 ELSE IF p < 1 \/ p >= i \/ acc[p] = 0 THEN 0
-                 ELSE Child(nfa, acc[p], slots[i].lab)
-       IN MapSlots(nfa, slots, i + 1, Append(acc, nd))
+\* node of the specification's automaton for every dumped slot (BFS order: parents come first)
+MapSlots(nfa, slots, i, acc0) ==
+  IterRange(LAMBDA acc, k :
+              LET p  == slots[k].par
+                  nd == IF k = 1 THEN ROOT
+                        ELSE IF p < 1 \/ p >= k \/ acc[p] = 0 THEN 0
+                        ELSE Child(nfa, acc[p], slots[k].lab)
+              IN Append(acc, nd),
+            acc0, i, Len(slots))
 
-RECURSIVE DepthsOf(_, _, _)
-DepthsOf(slots, i, acc) ==
-  IF i > Len(slots) THEN acc
-  ELSE LET p == slots[i].par IN
-       DepthsOf(slots, i + 1,
-                Append(acc, IF i = 1 \/ p < 1 \/ p >= i THEN 0 ELSE acc[p] + 1))
+DepthsOf(slots, i, acc0) ==
+  IterRange(LAMBDA acc, k :
+              LET p == slots[k].par IN
+              Append(acc, IF k = 1 \/ p < 1 \/ p >= k THEN 0 ELSE acc[p] + 1),
+            acc0, i, Len(slots))
 
 RECURSIVE Pow2AtLeast(_, _)
 Pow2AtLeast(n, p) == IF p >= n THEN p ELSE Pow2AtLeast(n, 2 * p)
@@ -178,7 +180,7 @@ NormTable(ev) ==
 TableKey(a) == <<"table", a.var, a.kind, a.bpats, [i \in 1..Len(a.pats) |-> ValStr(a, i)]>>
 
 TableFails(s, a, ev) ==
-  IF Len(a.pats) > BIG THEN {} ELSE
+  IF IsBig(a.pats) THEN {} ELSE
   LET nfa    == a.aut
       slots  == ev.slots
       n      == Len(slots)
